@@ -174,6 +174,36 @@ def processStatePayload (mro : List String) (i : PSInp) : Option Text :=
   | none => none
   | some extra => (psItems i (processStateLead ++ extra)).map joinItems
 
+/-! ### sendRemoteCommEvent (rpcinterface.py) → RemoteCommunicationEvent → payload -/
+
+/-- positional call: parameter name ↦ actual value -/
+def bindParams : List String → List Text → List (String × Text)
+  | p :: ps, v :: vs => (p, v) :: bindParams ps vs
+  | _, _ => []
+
+/-- payload of `RemoteCommunicationEvent(a₀, a₁)` where the actual arguments are named by the
+    caller's variables (`type` ↦ t, `data` ↦ d): constructor parameters → `self.x` fields → the
+    arguments of the payload template, all from the generated tables -/
+def remoteCommPayloadOfCall (t d : Text) (actualNames : List String) : Option Text :=
+  let actual : String → Option Text := fun nm =>
+    if nm = "type" then some t else if nm = "data" then some d else none
+  match actualNames.mapM actual with
+  | none => none
+  | some vals =>
+    if vals.length ≠ remoteCommCtorParams.length then none      -- TypeError
+    else
+      let env := bindParams remoteCommCtorParams vals
+      let field : String → Option Text := fun a =>      -- "self.x"
+        (remoteCommCtorBinds.lookup (a.drop 5).toString).bind fun prm => env.lookup prm
+      match remoteCommArgs.mapM field with
+      | none => none
+      | some args => fmtS (ofString remoteCommTemplate) args
+
+/-- the payloads of the notifications `sendRemoteCommEvent(type, data)` raises, in order
+    (`none` = an exception) -/
+def sendRemoteComm (t d : Text) : Option (List Text) :=
+  sendRemoteCommCalls.mapM (remoteCommPayloadOfCall t d)
+
 /-! ### line protocol: texts are code points in decimal separated by '.', "-" for the empty text -/
 def textOfArg (s : String) : Option Text :=
   if s = "-" then some [] else (s.splitOn ".").mapM String.toNat?
@@ -211,6 +241,14 @@ def runOp (l : String) : String :=
     | some mro, some nm, some gr, some fr, some tr, some ex, some pid =>
       showOpt (processStatePayload (mro.splitOn ",") ⟨nm, gr, fr, tr, ex, pid⟩)
     | _, _, _, _, _, _, _ => "bad-op"
+  | ["remote", t, d] =>
+    match textOfArg t, textOfArg d with
+    | some t, some d =>
+      match sendRemoteComm t d with
+      | some ps => "ok " ++ " ".intercalate (ps.map fun x => hexOfBytes (utf8 x))
+      | none => "none"
+    | _, _ => "bad-op"
+  | ["supstate"] => "ok " ++ hexOfBytes (utf8 (ofString supervisorStatePayload))
   | "fmt" :: which :: args =>
     match templateOf which, args.mapM textOfArg with
     | some t, some as => showOpt (fmtS (ofString t) as)
